@@ -204,7 +204,19 @@ fn ctx_json(ctx: &CodegenContext, want: &Want) -> Value {
         let mut sm = vec![];
         for o in ctx.source_map().offsets() {
             let span = guarded(|| span_json(cm, o.span)).unwrap_or_else(|p| json!({ "panic": p }));
-            sm.push(json!({"span": span, "pc0": o.pc.start, "pc1": o.pc.end, "scope": o.scope.index()}));
+            // what the address lookup (used by the debugger) answers for the first and the last address of this entry
+            let look = |pc: usize| -> Value {
+                match guarded(|| ctx.source_map().address_to_offset(pc).map(|f| (f.span, f.pc.start, f.pc.end))) {
+                    Ok(Some((sp, a, b))) => {
+                        let j = guarded(|| span_json(cm, sp)).unwrap_or_else(|p| json!({ "panic": p }));
+                        json!({"span": j, "pc0": a, "pc1": b})
+                    }
+                    Ok(None) => Value::Null,
+                    Err(p) => json!({ "panic": p }),
+                }
+            };
+            let (l0, l1) = if o.pc.end > o.pc.start { (look(o.pc.start), look(o.pc.end - 1)) } else { (Value::Null, Value::Null) };
+            sm.push(json!({"span": span, "pc0": o.pc.start, "pc1": o.pc.end, "scope": o.scope.index(), "lookup0": l0, "lookup1": l1}));
         }
         out.insert("source_map".into(), Value::Array(sm));
     }
